@@ -301,6 +301,27 @@ Arguments FSkip {R}.
 Arguments FRaise {R}.
 
 (* --- instance fed by the harness ----------------------------------------- *)
+(* Text crosses the Python/Coq boundary as an ASCII [string]: printable ASCII
+   other than the double quote and "~" stands for itself, any other code point
+   is "~" followed by six hexadecimal digits. *)
+Definition hexval (a : ascii) : N :=
+  let n := N_of_ascii a in if N.ltb n 58 then (n - 48)%N else (n - 87)%N.
+Definition dec_step (st : list N * (nat * N)) (a : ascii) : list N * (nat * N) :=
+  let '(acc, (k, v)) := st in
+  match k with
+  | O => if Ascii.eqb a "~"%char then (acc, (6, 0%N)) else (N_of_ascii a :: acc, (0, 0%N))
+  | S O => ((v * 16 + hexval a)%N :: acc, (0, 0%N))
+  | S k' => (acc, (k', (v * 16 + hexval a)%N))
+  end.
+Definition D (s : string) : ustr :=
+  rev (fst (fold_left dec_step (list_ascii_of_string s) ([], (0, 0%N)))).
+
+Definition hexdigit (n : N) : ascii := ascii_of_N (if N.ltb n 10 then 48 + n else 87 + n)%N.
+Definition enc_char (c : N) : list ascii :=
+  if (N.leb 32 c && N.ltb c 127 && negb (N.eqb c 34) && negb (N.eqb c 126))%bool then [ascii_of_N c]
+  else "~"%char :: map (fun i => hexdigit (N.modulo (N.shiftr c (4 * i)) 16)) [5; 4; 3; 2; 1; 0]%N.
+Definition E (s : ustr) : string := string_of_list_ascii (flat_map enc_char s).
+
 (* a value together with what the external functions returned for it *)
 Record dval := mkD {
   d_pf : ustr;                   (* pprint.pformat(v, width=40) *)
@@ -312,11 +333,12 @@ Record dval := mkD {
 
 Definition d_pretty : message dval -> option ustr := pretty_format dval d_pf d_str d_lv d_ts.
 Definition d_compact : message dval -> option ustr := compact_format dval d_js d_str d_lv d_ts.
-Definition d_fields (m : message dval) : list ustr := map fst (ordered_fields dval m).
-Definition d_main (compact : bool) (ls : list (line dval)) : ustr * bool :=
-  let (ps, ok) := main dval d_pf d_js d_str d_lv d_ts compact ls in (concat ps, ok).
+Definition d_format (m : message dval) : option string * option string :=
+  (option_map E (d_pretty m), option_map E (d_compact m)).
+Definition d_main (compact : bool) (ls : list (line dval)) : string * bool :=
+  let (ps, ok) := main dval d_pf d_js d_str d_lv d_ts compact ls in (E (concat ps), ok).
 (* the harness evaluates the expression and the encoder itself: J = the result *)
-Definition d_filter (ls : list (option (fres ustr))) : ustr * bool :=
-  let (ps, ok) := filter_run (fres ustr) ustr (fun j => j) (fun r => r) ls in (concat ps, ok).
-Definition d_filter_main (argc : nat) (ls : list (option (fres ustr))) : N * (ustr * bool) :=
-  let '(rc, (ps, ok)) := filter_main (fres ustr) ustr (fun j => j) (fun r => r) argc ls in (rc, (concat ps, ok)).
+Definition d_filter (ls : list (option (fres ustr))) : string * bool :=
+  let (ps, ok) := filter_run (fres ustr) ustr (fun j => j) (fun r => r) ls in (E (concat ps), ok).
+Definition d_filter_main (argc : nat) (ls : list (option (fres ustr))) : N * (string * bool) :=
+  let '(rc, (ps, ok)) := filter_main (fres ustr) ustr (fun j => j) (fun r => r) argc ls in (rc, (E (concat ps), ok)).
